@@ -410,7 +410,7 @@ def main(argv=None):
     n_done = len([o for o in results.values() if "harness_error" not in o and not o.get("aborted")])
 
     # ---- fresh interpreter comparison
-    selftest = {"same_process_twice": n_self if not harness_errors else "see errors",
+    selftest = {"same_seed_twice_in_forked_children": n_self if not harness_errors else "see errors",
                 "fresh_interpreter_other_hashseed": 0}
     if st_proc is not None:
         try:
